@@ -726,6 +726,43 @@ fn temp_path(path: &Path) -> PathBuf {
     ))
 }
 
+/// Verification hooks, compiled only with `--cfg tree_sitter_verif`. A harness can observe and
+/// schedule the steps of the check-lock-compile-rename-unlock-load protocol: the installed
+/// callback runs at every step (it may block or abort the process), and the lock timeout can be
+/// shortened through `TREE_SITTER_VERIF_LOCK_TIMEOUT_MS`.
+#[cfg(tree_sitter_verif)]
+pub mod verif {
+    use std::{sync::RwLock, time::Duration};
+
+    type Hook = Box<dyn Fn(&str) + Send + Sync>;
+
+    static HOOK: RwLock<Option<Hook>> = RwLock::new(None);
+
+    pub fn set_hook(hook: Option<Hook>) {
+        *HOOK.write().unwrap() = hook;
+    }
+
+    pub(crate) fn point(name: &str) {
+        if let Some(hook) = HOOK.read().unwrap().as_ref() {
+            hook(name);
+        }
+    }
+
+    pub(crate) fn lock_timeout(default: Duration) -> Duration {
+        std::env::var("TREE_SITTER_VERIF_LOCK_TIMEOUT_MS")
+            .ok()
+            .and_then(|ms| ms.parse().ok())
+            .map_or(default, Duration::from_millis)
+    }
+}
+
+macro_rules! verif_point {
+    ($name:expr) => {
+        #[cfg(tree_sitter_verif)]
+        verif::point($name);
+    };
+}
+
 /// RAII lock file guard. The lock file is created atomically via
 /// [`create_new`](`fs::OpenOptions::create_new`) and removed on drop.
 /// and removed on drop.
@@ -1133,6 +1170,11 @@ impl Loader {
         if !recompile {
             recompile = needs_recompile(&output_path, &paths_to_check)?;
         }
+        verif_point!(if recompile {
+            "decided:recompile"
+        } else {
+            "decided:fresh"
+        });
 
         // Create a unique lock path based on the output path hash to prevent
         // interference when multiple processes build the same grammar (by name)
@@ -1169,6 +1211,7 @@ impl Loader {
             match LockFile::create(&lock_path)? {
                 Some(_lock) => {
                     // We won the race, so compile with the lock.
+                    verif_point!("lock:won");
                     let compile_wasm;
                     #[cfg(feature = "wasm")]
                     {
@@ -1196,13 +1239,22 @@ impl Loader {
                             Self::check_external_scanner(&output_path);
                         }
                     }
+                    verif_point!("unlocking");
                     // _lock dropped here, removing the lock file.
                 }
                 // Another thread/process is compiling (or a previous run
                 // crashed and left a stale lock). Wait for it to finish.
-                None => LockFile::wait_for_removal(&lock_path, Duration::from_secs(30))?,
+                None => {
+                    verif_point!("lock:lost");
+                    let timeout = Duration::from_secs(30);
+                    #[cfg(tree_sitter_verif)]
+                    let timeout = verif::lock_timeout(timeout);
+                    LockFile::wait_for_removal(&lock_path, timeout)?;
+                    verif_point!("waited");
+                }
             }
         }
+        verif_point!("loading");
 
         #[cfg(feature = "wasm")]
         if let Some(wasm_store) = self.wasm_store.lock().unwrap().as_mut() {
@@ -1326,6 +1378,7 @@ impl Loader {
             display_build_cmd(&command);
         }
 
+        verif_point!("compiling");
         let output = command.output().map_err(|e| {
             LoaderError::Compiler(CompilerError {
                 error: e,
@@ -1347,10 +1400,12 @@ impl Loader {
         }
 
         if output.status.success() {
+            verif_point!("compiled");
             fs::rename(&temp_output, output_path).map_err(|e| {
                 let _ = fs::remove_file(&temp_output);
                 LoaderError::IO(IoError::new(e, Some(output_path)))
             })?;
+            verif_point!("renamed");
             Ok(())
         } else {
             let _ = fs::remove_file(&temp_output);
